@@ -160,6 +160,8 @@ class EnvTracer:
             self.steps.append({'i0': int(eng.i0), 'mr': bool(eng.move_right), 'upl': bool(up[0]), 'upr': bool(up[1]),
                                'LP': [i for i in range(L) if env.has_LP(i)], 'RP': [i for i in range(L) if env.has_RP(i)],
                                'reads': self.reads,
+                               'qt': [[int(x) for x in B.qtotal] for B in psi._B],
+                               'mix': 0 if eng.mixer is None else (1 if type(eng.mixer).__name__ == 'DensityMatrixMixer' else 2),
                                'current': bool(all(tuple(t) == tuple(self.ver[:i]) for i, t in self.sh_L.items()) and
                                                all(tuple(t) == tuple(self.ver[i + 1:]) for i, t in self.sh_R.items())),
                                'shadow_ok': sorted(self.sh_L) == [i for i in range(L) if env.has_LP(i)] and
@@ -187,6 +189,18 @@ def run_dmrg(case):
         psi = MPS.from_desired_bond_dimension(sites, case['init_chi'], bc=case['bc'], **kw)
     else:
         psi = MPS.from_product_state(sites, case['init'], bc=case['bc'], **kw)
+    for i, d in (case.get('regauge') or []):
+        # move charge d from site tensor i+1 to site tensor i by regauging the bond leg: the state is unchanged,
+        # the tensors' qtotal are not zero any more (charge bookkeeping of update_local, Model/SweepCharge.v)
+        if psi.chinfo.qnumber == 0 or not (0 <= i < L - 1):
+            continue
+        dv = np.array([d] * psi.chinfo.qnumber)
+        A, B = psi._B[i], psi._B[i + 1]
+        psi._B[i] = A.gauge_total_charge('vR', A.qtotal + dv)
+        psi._B[i + 1] = B.gauge_total_charge('vL', B.qtotal - dv)
+    if case.get('regauge'):
+        psi.test_sanity()
+    qt0 = [[int(x) for x in B.qtotal] for B in psi._B]
     q0 = [int(x) for x in psi.get_total_charge(True)] if case['bc'] == 'finite' else None
     opts = json.loads(json.dumps(case['options']))
     if 'chi_list' in opts and opts['chi_list'] is not None:
@@ -234,6 +248,8 @@ def run_dmrg(case):
         out['E_bond'] = float(np.mean(np.real(M.bond_energies(psi))))
         out['corr_len_ok'] = True
     if tr is not None:
+        out['qt0'] = qt0
+        out['mods'] = [int(m) for m in psi.chinfo.mod]
         out['steps'] = tr.steps
         out['trace_problems'] = tr.problems[:5]
     return out
